@@ -129,7 +129,7 @@ type Kernel struct {
 	listeners    map[string]*Listener
 	stubs        map[string]StubFactory
 	udpSt        *udpState
-	lastUnlock map[string]int
+	lastUnlock   map[string]int
 	unlockSeq    uint64
 	fsTrace      []string
 	udpBusyPorts map[int]bool
